@@ -196,10 +196,30 @@ def rand_pts(rng, n, m, kind):
         return [list(rng.choice(base)) for _ in range(n)]
     if kind == "chain":  # totally ordered by dominance
         return [[float(i) + (0.0 if rng.random() < 0.5 else 0.5)] * m for i in rng.sample(range(n), n)]
+    if kind == "absorb":
+        # one coordinate so large that the float row sums of different points round to the same value:
+        # the order given by the sum sort is then arbitrary with respect to dominance
+        big = float(2 ** rng.choice([53, 55, 60])) * rng.choice([1, 3])
+        col = rng.randrange(m)
+        pts = []
+        for _ in range(n):
+            v = [rng.randint(-8, 8) / 8 for _ in range(m)]
+            v[col] = big if rng.random() < 0.8 else big * 2
+            pts.append(v)
+        return pts
+    if kind == "near_equal_sum":
+        # dominated / dominating pairs whose sums differ by less than one ulp of the sum (0.1 + 0.2 vs 0.3)
+        pts = []
+        for _ in range(n):
+            a = rng.choice([0.1, 0.2, 0.3, 0.7])
+            b = rng.choice([0.1, 0.2, 0.3])
+            v = [rng.choice([a + b, round(a + b, 10)])] + [rng.choice([0.5, 0.25]) for _ in range(m - 1)]
+            pts.append(v)
+        return pts
     raise ValueError(kind)
 
 
-KINDS = ["float", "grid", "equal_sum", "dups", "chain"]
+KINDS = ["float", "grid", "equal_sum", "dups", "chain", "absorb", "near_equal_sum"]
 
 
 def gen_floats(count):
